@@ -493,6 +493,47 @@ def run_request(acc, job):
                                               repr(target), 'request')
                             acc.outcome('request-ok')
     core.quiet_logging()
+    # opaque objects BELOW the top level (in a nested dict, in a list, in a
+    # tuple): such a target may not be sendable at all - whether the call
+    # decides or raises, the caller's target must come back untouched, down to
+    # the identity of every container and leaf in it
+    def ident(x):
+        if isinstance(x, dict):
+            return ('d', id(x), [(k, ident(v)) for k, v in x.items()])
+        if isinstance(x, (list, tuple)):
+            return ('l', id(x), [ident(v) for v in x])
+        return ('v', id(x), repr(x) if isinstance(
+            x, (str, int, float, bool, type(None))) else None)
+    with world.HttpStub(responder) as stub:
+        for ct in ('application/x-www-form-urlencoded', 'application/json'):
+            enf = enforcer(ct)
+            world.set_rules(enf, {
+                'p': 'http://srv.test/v1/%(name)s',
+                'q': 'role:nope or https://srv.test/v1/%(name)s',
+                'r': 'not http://srv.test/v1/%(name)s'})
+            for shape in range(6):
+                for pname in ('p', 'q', 'r'):
+                    o = object()
+                    target = [
+                        {'name': 'n', 'server': {'handle': o}},
+                        {'name': 'n', 'server': {'a': {'b': o}, 'k': 1}},
+                        {'name': 'n', 'items': [o, 1]},
+                        {'name': 'n', 'items': [{'h': o}]},
+                        {'name': 'n', 'top': o, 'server': {'handle': o}},
+                        {'name': 'n', 'pair': (o, 'x')}][shape]
+                    before = ident(target)
+                    acc.case('request', True)
+                    acc.ev()
+                    got = world.decide(enf, pname, target, {'roles': ['r']})
+                    if ident(target) != before:
+                        acc.violation(
+                            'request|target-mutated|deep',
+                            'caller\'s target changed to %r (decision %r)' %
+                            (target, got),
+                            {'policy': pname, 'content_type': ct,
+                             'shape': shape}, 'untouched', repr(target),
+                            'request')
+                    acc.outcome('request-deep-opaque-%s' % got[0])
     # the configured encoding is read at every call: (a) one enforcer whose
     # remote_content_type option is changed between calls, (b) ONE parsed
     # check object handed to two differently configured enforcers in turn
